@@ -111,7 +111,9 @@ Lemma pure_read_mut_local kinds G v sp f ctx s :
   notok (r_expr (afix kinds G f) (ERead v sp) ctx s).
 Proof.
   intros P K. destruct f as [|f]; [apply notok_fuel|].
-  cbn [afix astep r_expr]. unfold expr_body. apply bind_notok_l. cbv beta iota. unfold var_kind.
+  cbn [afix astep r_expr]. unfold expr_body. apply bind_notok_l. cbv beta iota.
+  rewrite (bind_ok (is_type_name v) _ s _ s eq_refl). destruct (existsb (N.eqb v) (tnames s)); [apply notok_fail|].
+  unfold var_kind.
   destruct (PositiveMap.find (N.succ_pos v) kinds) as [[]|]; [congruence| |apply bind_notok_l, notok_panicm].
   rewrite (bind_ok (ret Mutable) _ s Mutable s eq_refl). rewrite P. apply notok_fail.
 Qed.
